@@ -13,6 +13,7 @@ package c16
 import (
 	"encoding/json"
 	"fmt"
+	"os"
 	"sort"
 	"strings"
 
@@ -104,11 +105,16 @@ func contSets(n int) [][]int {
 	return out
 }
 
-func tokenStyles(emit func(Style)) {
+// tokenStyles: the token layer. full = the whole product (36); otherwise the
+// two sub-products case x case and quoting x spacing (12).
+func tokenStyles(full bool, emit func(Style)) {
 	for dc := 0; dc < 3; dc++ {
 		for ac := 0; ac < 3; ac++ {
 			for q := 0; q < 2; q++ {
 				for cs := 0; cs < 2; cs++ {
+					if !full && (dc != 0 || ac != 0) && (q != 0 || cs != 0) {
+						continue
+					}
 					emit(Style{DirCase: dc, ActCase: ac, Quote: q, CommaSp: cs})
 				}
 			}
@@ -116,7 +122,7 @@ func tokenStyles(emit func(Style)) {
 	}
 }
 
-func layoutStyles(d Desc, base Style, conts [][]int, emit func(Style)) {
+func layoutStyles(base Style, conts [][]int, emit func(Style)) {
 	for _, ct := range conts {
 		for in := 0; in < 2; in++ {
 			for _, crlf := range []bool{false, true} {
@@ -134,37 +140,42 @@ func layoutStyles(d Desc, base Style, conts [][]int, emit func(Style)) {
 	}
 }
 
-// designated says whether description number n of its axis gets the layout
-// layer (quick: every 40th of the target and action axes and every 400th of
-// the operator axis; thorough: every 4th / every 40th).
+// designated says whether description number n of its axis gets the whole
+// layout layer.
 func designated(axis string, n int, thorough bool) bool {
-	step := 40
-	if axis == "operator" {
-		step = 400
-	}
+	step := map[string]int{"targets": 120, "actions": 150, "operator": 700}[axis]
 	if thorough {
 		step /= 10
 	}
-	return n%step == 0
+	return n%step == 7%step
 }
 
 func stylesFor(axis string, n int, d Desc, thorough bool, emit func(Style)) {
-	tokenStyles(emit)
+	if axis == "actions" {
+		tokenStyles(thorough, emit)
+	} else {
+		// the action list of these descriptions is fixed: directive case only,
+		// and one style in which every token-layer dimension is non-canonical
+		emit(Style{})
+		emit(Style{DirCase: 1})
+		emit(Style{DirCase: 2})
+		emit(Style{DirCase: 1, ActCase: 2, Quote: 1, CommaSp: 1})
+	}
 	nb := boundaries(d)
 	if designated(axis, n, thorough) {
-		layoutStyles(d, Style{}, contSets(nb), emit)
+		layoutStyles(Style{}, contSets(nb), emit)
 		// a line over 64 kB in every placement
 		for pl := 0; pl < 4; pl++ {
 			emit(Style{LongLine: 1, Place: pl})
 		}
 		if thorough {
 			// token layer x reduced layout layer
-			tokenStyles(func(t Style) {
-				layoutStyles(d, t, [][]int{{0, nb - 1}}, emit)
+			tokenStyles(true, func(t Style) {
+				layoutStyles(t, [][]int{{0, nb - 1}}, emit)
 			})
 		}
 	} else {
-		// every description still sees each layout dimension once
+		// every description still sees each layout dimension
 		emit(Style{Cont: []int{0, nb - 1}, Indent: 1})
 		emit(Style{Cont: []int{1}, CRLF: true, NoFinal: true})
 		emit(Style{Comments: 1, Place: 1})
@@ -173,13 +184,32 @@ func stylesFor(axis string, n int, d Desc, thorough bool, emit func(Style)) {
 	}
 }
 
-func nearMissBases(d Desc) []Style {
+func nearMissBases(d Desc, thorough bool) []Style {
+	if !thorough {
+		return []Style{{}}
+	}
 	nb := boundaries(d)
 	return []Style{{}, {Quote: 1, Cont: []int{0, nb - 1}, Indent: 1}}
 }
 
+// ownDelim says whether a delimiter kind belongs to the component the axis
+// varies or to the top level of the directive (the components are scanned by
+// separate scanners; the top level decides where each begins and ends).
+func ownDelim(axis, kind string) bool {
+	switch {
+	case strings.HasPrefix(kind, "target-"), strings.HasPrefix(kind, "key-"), strings.HasPrefix(kind, "regex-"):
+		return axis == "targets"
+	case kind == "operator-bang", kind == "operator-at", kind == "operator-space", kind == "operator-escape-backslash":
+		return axis == "operator"
+	case strings.HasPrefix(kind, "action-"), strings.HasPrefix(kind, "value-"):
+		return axis == "actions"
+	}
+	return true
+}
+
 type caseCtx struct {
 	c      *runner.Ctx
+	axis   string
 	d      Desc
 	rules  []Desc
 	probes []Probe
@@ -189,6 +219,11 @@ type caseCtx struct {
 }
 
 func run(c *runner.Ctx) {
+	// every NewWAF probes its temporary directory by creating a file: keep that in memory
+	if dir, err := os.MkdirTemp("/dev/shm", "c16-"); err == nil {
+		os.Setenv("TMPDIR", dir)
+		defer os.RemoveAll(dir)
+	}
 	idx := 0
 	perAxis := map[string]int{}
 	descriptions(c.Thorough(), func(axis string, d Desc) {
@@ -211,6 +246,7 @@ func run(c *runner.Ctx) {
 func checkDesc(c *runner.Ctx, axis string, n int, d Desc) {
 	cc := &caseCtx{c: c, d: d, rules: []Desc{d, sentinel}}
 	cc.probes = battery(cc.rules)
+	cc.axis = axis
 	cc.exp = expect(cc.rules, cc.probes)
 	cc.expS = cc.exp.String()
 	if cc.exp.Err {
@@ -234,7 +270,7 @@ func checkDesc(c *runner.Ctx, axis string, n int, d Desc) {
 		seen[key] = true
 		cc.rendering(st, cfg)
 	})
-	for _, st := range nearMissBases(d) {
+	for _, st := range nearMissBases(d, c.Thorough()) {
 		if c.Expired() {
 			return
 		}
@@ -617,6 +653,9 @@ func (cc *caseCtx) nearMisses(st Style, seen map[string]bool) {
 		cc.nearMiss(name, kind, cfg)
 	}
 	for _, dl := range delims {
+		if !ownDelim(cc.axis, dl.Kind) {
+			continue
+		}
 		del := text[:dl.Off] + text[dl.Off+dl.Len:]
 		dup := text[:dl.Off+dl.Len] + text[dl.Off:]
 		try("delete "+dl.Kind, dl.Kind, renderConfig(del, Style{}))
